@@ -191,12 +191,7 @@ def checkedDivRounded (prof : Profile) (tm : Mode) (a : Int) (p : Nat) (b : Int)
     | none => i128ShiftedDivRounded prof tm a shift b none
   | .gt => do
     let shift := p - shift
-    let (quot, rem) ←
-      if b < 0 then do
-        let a' ← negI128 prof a
-        let b' ← negI128 prof b
-        i128DivModFloor prof a' b'
-      else i128DivModFloor prof a b
+    let (quot, rem) ← i128DivModFloor prof a b
     let t ← tenPow shift
     if rem = 0 then do
       let c ← i128DivRounded prof tm quot t none
